@@ -457,6 +457,12 @@ func queryFields(defs map[field.ID]field.Type) field.Metas {
 // declares exactly one field delivers its data under query field index 0 whatever the field is.
 const SigSingleFieldBlock = "C03/single-field-block-read-by-multi-field-query"
 
+// SigEmptyBucket is the signature of the compaction defect found by this check: memdb flushes a
+// single-field block whose roaring container holds only series without data in that memory
+// database; the flusher writes nothing for that container and the merger's scanner refuses the
+// block ("series entries length too short: 0"), so every compaction of the family fails.
+const SigEmptyBucket = "C03/single-field-block-container-without-data-fails-compaction"
+
 // openMetricReaders: Snapshot.FindReaders -> table.Reader.Get -> metricsdata.NewReader (tsdb/data_family.go fileFilter).
 func openMetricReaders(snap version.Snapshot, metricID uint32) ([]metricsdata.MetricReader, error) {
 	tableReaders, err := snap.FindReaders(metricID)
